@@ -2,7 +2,7 @@
    Full-strength statement: C01_statement (order) + future truth (Cluster/Statements.v). Proved so far: the theorems below; what is
    not yet proved is decided on every run by the lock-step co-simulation (model = implementation on every
    explored schedule) together with the monitors run on the implementation's own observations. *)
-From RaftV Require Import Cluster.Statements Proofs.RVSpec Proofs.AESpec.
+From RaftV Require Import Cluster.Statements Proofs.RVSpec Proofs.AESpec Proofs.CommitSpec.
 Open Scope N_scope.
 
 (* becomeFollower (every term change, every step-down) never touches the commit index, the applied index, the
@@ -10,3 +10,28 @@ Open Scope N_scope.
 Theorem C03_step_down_frame : forall now n l t, vol (become_follower now n l t) = vol n.
 Proof. exact vol_become_follower. Qed.
 Print Assumptions C03_step_down_frame.
+
+(* One iteration of the apply loop, for every node state: the applied index advances by exactly one; the state machine
+   receives exactly the payload of the log entry at that index - nothing for a no-op or configuration entry - and the
+   apply history records that entry's own index, term and payload. *)
+Theorem C03_apply_one_entry : forall now n e,
+  log_get (n_log n) (n_applied n + 1) = Some e ->
+  let n' := lp_apply_one now n in
+  n_applied n' = n_applied n + 1 /\
+  match e_kind e with
+  | KOp p => n_fsm n' = n_fsm n ++ [p] /\ n_applies n' = n_applies n ++ [(e_index e, e_term e, p)]
+  | _ => n_fsm n' = n_fsm n /\ n_applies n' = n_applies n
+  end.
+Proof. exact lp_apply_one_spec. Qed.
+Print Assumptions C03_apply_one_entry.
+
+(* Applying an operation entry answers at most one future - the one registered for that index - and the answer
+   carries the entry's own index, term and payload and the state machine's new state. *)
+Theorem C03_future_answered_with_the_applied_entry : forall now n e p x,
+  log_get (n_log n) (n_applied n + 1) = Some e -> e_kind e = KOp p ->
+  In x (n_results (lp_apply_one now n)) ->
+  In x (n_results n) \/
+  exists fid, lookup (e_index e) (n_pending n) = Some fid /\
+              x = (fid, FOp (e_index e) (e_term e) p (N.of_nat (length (n_fsm n ++ [p])))).
+Proof. exact lp_apply_one_results. Qed.
+Print Assumptions C03_future_answered_with_the_applied_entry.
